@@ -207,6 +207,13 @@ func c05(c *Ctx) {
 		}
 		c.SawFunc(FuncName(hd))
 		pl := callsTo(hd, "(*pkg/statsd.DatagramParser).parseLine")
+		lineArg := 2
+		direct := false
+		if len(pl) == 0 {
+			// the one-line wrapper written in place: l.Run(line, dp.namespace)
+			pl = callsTo(hd, "(*internal/lexer.Lexer).Run")
+			lineArg, direct = 1, true
+		}
 		if !r.Check("parseLine:one-site", len(pl) == 1, hd.Pos(), fmt.Sprintf("%d parseLine call sites", len(pl))) {
 			return
 		}
@@ -382,23 +389,39 @@ func c05(c *Ctx) {
 		okLineArg := true
 		var leaves func(v ssa.Value, d int)
 		seenPhi := map[*ssa.Phi]bool{}
-		fromMsg := func(v ssa.Value) bool {
-			for i := 0; i < 8; i++ {
-				switch x := v.(type) {
-				case *ssa.Parameter:
-					return x.Name() == "msg"
-				case *ssa.Phi:
-					return x.Comment == "msg" || strings.HasPrefix(x.Comment, "msg__")
-				case *ssa.Slice:
-					v = x.X
-				case *ssa.ChangeType:
-					v = x.X
-				default:
-					return false
+		// the datagram parameter (the last one, a []byte) or what is left of it: re-slices, the loop-carried rest
+		isMsgParam := func(p *ssa.Parameter) bool {
+			return p.Parent() == hd && len(hd.Params) > 0 && p == hd.Params[len(hd.Params)-1]
+		}
+		var fromMsgD func(v ssa.Value, seen map[ssa.Value]bool) bool
+		fromMsgD = func(v ssa.Value, seen map[ssa.Value]bool) bool {
+			if v == nil || seen[v] {
+				return true // a cycle through the loop adds nothing
+			}
+			seen[v] = true
+			switch x := v.(type) {
+			case *ssa.Parameter:
+				return isMsgParam(x)
+			case *ssa.Phi:
+				for _, e := range x.Edges {
+					if !fromMsgD(e, seen) {
+						return false
+					}
 				}
+				return true
+			case *ssa.Slice:
+				return fromMsgD(x.X, seen)
+			case *ssa.ChangeType:
+				return fromMsgD(x.X, seen)
+			case *ssa.Extract:
+				return cutCall != nil && x.Tuple == ssa.Value(cutCall) && x.Index == 1 // the rest returned by bytes.Cut
+			case *ssa.Const:
+				return x.Value == nil // msg = nil after the last line
 			}
 			return false
 		}
+		fromMsg := func(v ssa.Value) bool { return fromMsgD(v, map[ssa.Value]bool{}) }
+		isRestPhi := func(x *ssa.Phi) bool { return fromMsg(x) }
 		leaves = func(v ssa.Value, d int) {
 			if d > 8 {
 				okLineArg = false
@@ -406,7 +429,7 @@ func c05(c *Ctx) {
 			}
 			switch x := v.(type) {
 			case *ssa.Phi:
-				if x.Comment == "msg" {
+				if isRestPhi(x) {
 					return
 				}
 				if seenPhi[x] {
@@ -431,15 +454,19 @@ func c05(c *Ctx) {
 			case *ssa.ChangeType:
 				leaves(x.X, d+1)
 			case *ssa.Parameter:
-				if x.Name() != "msg" {
+				if !isMsgParam(x) {
 					okLineArg = false
 				}
 			default:
 				okLineArg = false
 			}
 		}
-		leaves(pc.Call.Args[2], 0)
-		r.Check("split:parse-the-line", okLineArg, pc.Pos(), "parseLine receives the rest of the datagram or a prefix of it (up to the newline): "+pathOf(pc.Call.Args[2]))
+		leaves(pc.Call.Args[lineArg], 0)
+		r.Check("split:parse-the-line", okLineArg, pc.Pos(), "parseLine receives the rest of the datagram or a prefix of it (up to the newline): "+pathOf(pc.Call.Args[lineArg]))
+		if direct {
+			a := pc.Call.Args
+			r.Check("parseLine:delegates", paramIndex(hd, a[0]) == 2 && strings.HasSuffix(pathOf(a[2]), ".namespace"), pc.Pos(), "the line is lexed with l.Run(line, dp.namespace)")
+		}
 		// parseLine passes the line and namespace straight to Lexer.Run
 		pf := w.Func("pkg/statsd", "(*DatagramParser).parseLine")
 		if pf != nil {
